@@ -30,7 +30,7 @@ def run(ctx):
     pool = runlib.program_pool(ctx, n, n_unknown=ctx.scale(30, 200), flags_for_guards=(0, FLAG["NEW_COST_MODEL"]))
     pairs = []
     for p, e, tag in pool:
-        f = gen_prog.random_flags(r, 0.15, exclude=FLAG["ENABLE_GC"])
+        f = runlib.pick_flags(r, tag, 0.15, exclude=FLAG["ENABLE_GC"])
         if tag.startswith("guard[f="):
             f = (f & ~FLAG["NEW_COST_MODEL"]) | (int(tag.split("=")[1].split()[0]) & FLAG["NEW_COST_MODEL"])
         m = r.choice([0, 0, 0, 11000000000, r.randrange(1, 5000), r.randrange(1, 10 ** 6)])
